@@ -3,6 +3,7 @@
 From Hub Require Import Base.Prelude Base.Arith Model.Types Model.Keeper Model.Handlers Model.Hooks Model.Step.
 From Hub Require Import Proofs.Tactics Proofs.Frames Proofs.Money Proofs.Supply.
 From Hub Require Import Gen.Wiring Proofs.WiringThm.
+From Hub Require Import Base.Bytes Gen.KeysGen Model.HashCodec Proofs.CodecThm.
 
 (* For each hash at most one swap is ever executed: once recorded, a request with the
    same hash is rejected, and a recorded swap is never altered or removed. *)
@@ -46,6 +47,26 @@ Theorem C14_supply_is_sum_of_swaps : forall ops s s' d,
   amount_of (supply s') d - amount_of (supply s) d = swap_total s' d - swap_total s d.
 Proof. intros ops s s' d H. exact (supply_tracks_swaps_run ops s 0%nat s' d H). Qed.
 
+(* The key a record is stored under is the key it is looked up under, for byte strings of ANY length (the keeper and
+   the genesis import do not check the length): both normalise with BytesToHash (left-pad with zeros / keep the last
+   32 bytes), the normal form is 32 bytes long and a fixed point, and the key constructor (regenerated from
+   x/swap/types/keys.go) is injective -- so two requests are "the same hash" exactly when their normal forms are equal,
+   in particular when they differ only in leading zero bytes.  Tie: the real SwapKey(swap.GetTxHash()) and
+   SwapKey(BytesToHash(msg.TxHash)) are compared with this model on generated inputs of all lengths (tools/ext_c14.py). *)
+Theorem C14_stored_key_is_lookup_key : forall x y : list N,
+  (swap_SwapKey (bytes_to_hash x) = swap_SwapKey (bytes_to_hash y) <-> bytes_to_hash x = bytes_to_hash y) /\
+  List.length (bytes_to_hash x) = 32%nat /\ bytes_to_hash (bytes_to_hash x) = bytes_to_hash x /\
+  (bytes_to_hash (0%N :: x) = bytes_to_hash x \/ (32 <= List.length x)%nat).
+Proof.
+  intros x y. split; [split; [unfold swap_SwapKey; intros H; apply app_inv_head in H; exact H|intros ->; reflexivity]|].
+  split; [apply bytes_to_hash_length|]. split; [apply bytes_to_hash_exact, bytes_to_hash_length|].
+  destruct (le_lt_dec 32 (List.length x)) as [Hge|Hlt]; [right; exact Hge|left].
+  rewrite (bytes_to_hash_short (0%N :: x)) by (simpl; unfold HASH_LEN; lia). rewrite (bytes_to_hash_short x) by (unfold HASH_LEN; lia).
+  simpl List.length. replace (HASH_LEN - S (List.length x))%nat with (HASH_LEN - List.length x - 1)%nat by lia.
+  destruct (HASH_LEN - List.length x)%nat as [|k] eqn:E; [unfold HASH_LEN in E; lia|]. simpl. rewrite Nat.sub_0_r.
+  change (0%N :: repeat 0%N k ++ x)%list with ((0%N :: repeat 0%N k) ++ x)%list. rewrite repeat_cons, <- app_assoc. reflexivity.
+Qed.
+
 Section wiring.
 Local Open Scope string_scope.
 (* app wiring (regenerated from app/module.go on every run): among the hub's module accounts only swap can mint, none can burn *)
@@ -61,3 +82,4 @@ Print Assumptions C14_accepted_swap.
 Print Assumptions C14_nothing_else.
 Print Assumptions C14_supply_is_sum_of_swaps.
 Print Assumptions C14_only_swap_mints.
+Print Assumptions C14_stored_key_is_lookup_key.
